@@ -180,6 +180,14 @@ def _check(task):
     rg = md.compute_rg(t)[0]
     if abs(rg ** 2 - exp["rg"] / n ** 2 * G * G) > 1e-4 * (1 + rg ** 2):
         probs.append("compute_rg differs from sqrt(mean |x - centre|^2)")
+    # the same placement hundreds of nanometres from the origin (a large box, an unwrapped solute): Rg is translation invariant, and
+    # float32 coordinates carry it to ~1e-5 nm (half an ulp at 250 nm is 7.6e-6 nm per coordinate)
+    if not per:
+        far = md.Trajectory((P * G + np.array([250.0, -180.0, 310.0])).astype(np.float32)[None], top)
+        rg_far = md.compute_rg(far)[0]
+        rg_exact = np.sqrt(exp["rg"] / n ** 2) * G
+        if abs(rg_far - rg_exact) > 4e-5:
+            probs.append("compute_rg of the placement translated far from the origin is %.6f, the definition gives %.6f" % (rg_far, rg_exact))
     w = np.array([MASS[a.element.symbol] for a in top.atoms], dtype=float)
     rgw = md.compute_rg(t, masses=np.array([WEIGHT[a.element.symbol] for a in top.atoms], dtype=float))[0]
     if abs(rgw ** 2 - exp["rgw"][0] / exp["rgw"][1] ** 2 * G * G) > 1e-4 * (1 + rgw ** 2):
